@@ -372,7 +372,7 @@ def run(ctx):
         raise InfraError("riscv table dump is empty:\n" + rv_dump[:500])
     write_if_changed(GEN_RV, rv_text)
     _, la_dump, _ = ctx.run_bin(h, args=["dump", "loong64"])
-    la_text, la_rows = c17_tables.gen_loong64(la_dump)
+    la_text, la_rows = c17_tables.gen_loong64(la_dump, c17_tables.lean_enum_order(os.path.join(LEAN, "WaVerif", "Model", "C17La.lean")))
     la_rows = [r for r in la_rows if int(r["mask"]) != 0 or int(r["value"]) != 0]
     if len(la_rows) < 10:
         from lib.vlib import InfraError
